@@ -18,6 +18,7 @@ RULE = (
     "B executes no function body and returns the same values. Non-trivial = the program has an order-sensitive ingredient (set literal with >= 2 members, >= 2 dependencies, >= 2 tracked "
     "variables or a cycle) and the configurations differ in hash seed and order; distinct by program."
     " Round 5: module-level sets with members of several types (missing-value markers: strings next to None / numbers), renamed definitions (builtin names, very long names)."
+    " Round 6: references from nested scopes, parameters whose default is a module-level list / dict (updated in place by the module text before or after the definition); a re-binding is not combined with a module-level clone (known finding held-clone, counted as excluded) nor with a variable that is a parameter default."
 )
 ASSUMPTIONS = [
     "one interpreter version/platform (CPython 3.12); cross-version stability of code hashes is out of scope",
